@@ -136,6 +136,16 @@ func typed(e cdEntry, props string) interface{} {
 		return f
 	case "bool":
 		return e.V == "true"
+	case "null":
+		return nil
+	case "emptystr":
+		return ""
+	case "emptymap":
+		return map[string]interface{}{}
+	case "emptylist":
+		return []interface{}{}
+	case "nestedmap":
+		return map[string]interface{}{"inner": map[string]interface{}{"deep": 1}, "other": "x"}
 	case "list":
 		l := []interface{}{}
 		if e.V != "" {
@@ -418,7 +428,9 @@ func (e *cdEnv) decodeVia(via, shape, reg string, tree map[string]interface{}, l
 
 func confdecodeMain(args []string) {
 	fs := flag.NewFlagSet("confdecode", flag.ExitOnError)
-	mode := fs.String("mode", "run", "points | run")
+	mode := fs.String("mode", "run", "points | run | conc (overlapping decodes; build with -race)")
+	goroutines := fs.Int("goroutines", 6, "conc: concurrent decoders")
+	rounds := fs.Int("rounds", 4, "conc: passes over all sections per goroutine")
 	variantsF := fs.String("variants", "", "variants file generated by TLC")
 	in := fs.String("in", "", "case file generated by TLC")
 	out := fs.String("out", "", "output (ndjson)")
@@ -431,6 +443,11 @@ func confdecodeMain(args []string) {
 	e := cdSetup()
 	defer os.RemoveAll(e.dir)
 
+	if *mode == "conc" {
+		w.Close()
+		confdecodeConc(vars, e, *out, *goroutines, *rounds)
+		return
+	}
 	if *mode == "points" {
 		names := []string{}
 		for n := range vars {
